@@ -63,7 +63,7 @@ MUTATIONS += [
     ("whole-contained-in-defined", "shape.py", "        if isinstance(other, WholeShape):\n            return False\n        return self._contains_shape(other)", "        if isinstance(other, WholeShape):\n            return True\n        return self._contains_shape(other)", {"C03": 1}, ["C03.dispatch", "singletons"]),
     ("connected-sort-not-reversed", "shape.py", "        values = sorted(zip(areas, values), key=algori, reverse=True)\n        values = tuple(val[1] for val in values)", "        values = sorted(zip(areas, values), key=algori)\n        values = tuple(val[1] for val in values)", {"C19": 1}, ["C19.setter"]),
     ("disjoint-keeps-empty-entries", "shape.py", "        while EmptyShape() in subshapes:\n            subshapes.remove(EmptyShape())", "        pass", {"C19": 1}, ["C19.new"]),
-    ("shape-move-skips-holes", "shape.py", "        point = Point2D(*point)\n        for jordan in self.jordans:\n            jordan.move(point)", "        point = Point2D(*point)\n        for jordan in self.jordans[:1]:\n            jordan.move(point)", {"C09": 1}, ["rc-histories"]),
+    ("shape-move-skips-holes", "shape.py", "        point = Point2D(*point)\n        for jordan in self.jordans:\n            jordan.move(point)", "        point = Point2D(*point)\n        for jordan in self.jordans[:1]:\n            jordan.move(point)", {"C09": 1}, ["rc-histories", "C09.shape"]),
     ("plot-curve3-count", "plot.py", "        commands += [Path.CURVE3] * 2", "        commands += [Path.CURVE3] * 3", {"C20": 1}, ["C20.path"]),
     ("plot-fill-condition-inverted", "plot.py", "            if float(connected) > 0:", "            if float(connected) < 0:", {"C20": 1}, ["plot-shape"]),
     ("square-half-side-dropped", "primitive.py", "        side /= 2\n", "        side /= 1\n", {"C16": 1}, ["C16.square"]),
